@@ -92,11 +92,26 @@ def retIs (r : Result) (s : Src) : Bool :=
   | some e => e.is.contains s
   | none => false
 
-/-- "commit or rollback failures are reported to the caller": the driver's error is reachable in the returned
-chain (`errors.Is`), not only mentioned in its text -/
+def isCommitSrc : Src → Bool
+  | .commit _ => true
+  | _ => false
+
+def isRollbackSrc : Src → Bool
+  | .rollback _ => true
+  | _ => false
+
+/-- something satisfying `p` is reachable in the returned error's chain -/
+def retHas (r : Result) (p : Src → Bool) : Bool :=
+  match r.ret with
+  | some e => e.is.any p
+  | none => false
+
+/-- "commit or rollback failures are reported to the caller": the driver's error (of whatever class — also one
+the breaker finds acceptable, such as sql.ErrTxDone) is reachable in the returned chain (`errors.Is`), not only
+mentioned in its text -/
 def endFailuresReported (r : Result) : Bool :=
-  (!r.log.contains (.commit false) || retIs r .commit) &&
-  (!r.log.contains (.rollback false) || retIs r .rollback)
+  (!r.log.contains (.commit false) || retHas r isCommitSrc) &&
+  (!r.log.contains (.rollback false) || retHas r isRollbackSrc)
 
 /-- a transaction that could not begin is reported with the driver's Begin error (or driver.ErrBadConn when
 database/sql gave up retrying) reachable in the returned chain -/
@@ -115,13 +130,13 @@ def bodyErrorReported (r : Result) : Bool :=
 Commit / Rollback (the last driver call), never with the body's panic and never after a successful end. -/
 def orderlyReturn (r : Result) : Bool :=
   !r.escaped ||
-  (r.ret == some (Err.of .commit) && r.log.getLast? == some (.commit false)) ||
-  (r.ret == some (Err.of .rollback) && r.log.getLast? == some (.rollback false))
+  (r.ret == some (Err.of (.commit .plain)) && r.log.getLast? == some (.commit false)) ||
+  (r.ret == some (Err.of (.rollback .plain)) && r.log.getLast? == some (.rollback false))
 
 /-- the breaker is told "success" exactly for nil and for acceptable errors (ErrNoRows, ErrTxDone,
 context.Canceled, acceptableError, WithAcceptable) — whenever `acceptable` was consulted at all; a failed
-Begin / Commit / Rollback or a panic is never booked as a success. `ua`: a WithAcceptable function is installed. -/
-def breakerTold (ua : Bool) (r : Result) : Bool :=
+Begin / Commit / Rollback or a panic is never booked as a success. `ua`: the WithAcceptable functions installed. -/
+def breakerTold (ua : UA) (r : Result) : Bool :=
   match r.mark with
   | none => true
   | some m => m == acceptable ua r.ret
